@@ -4,8 +4,10 @@ import time
 from framework.checklib import CorrResult
 from harness import gen, histcorr, semoracle
 
+from translator import t9_circuit_core
+
 ID = 'C10'
-TRANSLATORS = []
+TRANSLATORS = [t9_circuit_core.translate]
 PROPERTY_FILE = 'Properties/C10.v'
 THEOREMS = ['C10_result_wf', 'C10_connect_left', 'C10_left_induced_assignment', 'C10_connect_right',
             'C10_mapping_pairs', 'C10_mapping_keys', 'C10_new_labels_fresh',
